@@ -10,3 +10,4 @@ def check(rep, tier):
     rep.run(containers_unbounded.run, rep, tier)
     rep.run(containers.run_flatten_layout, rep)
     rep.run(containers.run_float_leaves, rep)
+    rep.run(containers.run_optimizer_wrapper, rep)
